@@ -19,9 +19,12 @@ def main():
         roots, lem = list(ex.functions), [it[0] for it in lib.items if it[1] == "proof"]
     deleg = [k for k in ex.functions if any(k.endswith(d) for d in os.environ.get("DELEGATE", "").split(",") if d)]
     fns, items = extract.cone(ex, lib, roots, lem, stop_at=deleg)
+    for k in sorted(fns):
+        if ex.functions[k].get("broken"):
+            print("BROKEN OVERLAY:", ex.functions[k]["broken"])
     open(out, "w").write(ex.render(keep_fns=fns, lib_items=items, canary=bool(os.environ.get("CANARY")), delegated=set(deleg))[0])
     t0 = time.time()
-    p = subprocess.run(["verus", out, "--multiple-errors", "5", "--triggers-mode", "silent", "--rlimit", rlimit, "--output-json", "--time", "--num-threads", "16"],
+    p = subprocess.run(["verus", out, "--multiple-errors", "5", "--triggers-mode", "silent", "--rlimit", rlimit, "--output-json", "--time", "--num-threads", "16"] + (["--verify-root", "--verify-function", os.environ["VFUN"]] if os.environ.get("VFUN") else []),
                        capture_output=True, text=True, cwd="/var/tmp/vt")
     dt = time.time() - t0
     try:
